@@ -994,6 +994,20 @@ def shrink(case):
             yield Case(_line(nd), nd, case.tags)
 
 
+def replay_known(entry) -> bool:
+    """K12: copy into the copied node's own subtree through a missing intermediate"""
+    if entry.get("witness", {}).get("clause") != "copy_into_own_subtree_new_intermediate":
+        return False
+    import bigtree
+    r = bigtree.Node("a"); b = bigtree.Node("b", parent=r); bigtree.Node("d", parent=b); bigtree.Node("c", parent=r)
+    try:
+        bigtree.copy_nodes(r, ["a/b"], ["a/b/n/b"])
+    except Exception:
+        return False
+    cp = bigtree.find_full_path(r, "a/b/n/b")
+    return cp is not None and sorted(c.node_name for c in cp.children) != ["d"]
+
+
 NOT_READY = False
 LEVEL_TEXT = ("Proof. Lean 4 theorems (C08.*) about a hand-written executable model of copy_or_shift_logic / replace_logic "
               "(identity-carrying rose trees, node references = name paths, fresh ids for copies), for ALL trees with unique "
